@@ -201,9 +201,25 @@ def _interior0():
 _MESH_CACHE = {}
 
 
+def _corner():
+    # right-corner tetrahedron: the midpoint of its bounding box lies outside (x + y + z <= 1)
+    return np.array([[0.0, 0.0, 0.0], [1.0, 0.0, 0.0], [0.0, 1.0, 0.0], [0.0, 0.0, 1.0]]) * 0.8 - 0.1
+
+
 def mesh_data(name):
+    if name == "skewraw" and name not in _MESH_CACHE:
+        # the skew polytope with the triangle list exactly as scipy / qhull reports it: NOT consistently wound
+        # (what a user gets from ConvexHull(points).simplices); index rotated so that shared edges sit in all positions
+        from scipy.spatial import ConvexHull
+        v = np.ascontiguousarray(_skew(), dtype=float)
+        tri = ConvexHull(v).simplices.astype(np.int64).copy()
+        for i in range(len(tri)):
+            tri[i] = np.roll(tri[i], i % 3)
+            if i % 2:
+                tri[i] = tri[i][::-1]
+        _MESH_CACHE[name] = (v, np.ascontiguousarray(tri))
     if name not in _MESH_CACHE:
-        v = {"tetra": _tetra, "octa": _octa, "cube": _cube, "icosa": _icosa, "icosphere": _icosphere,
+        v = {"corner": _corner, "tetra": _tetra, "octa": _octa, "cube": _cube, "icosa": _icosa, "icosphere": _icosphere,
              "skew": _skew, "offtetra": _offtetra, "interior0": _interior0}[name]()
         v = np.ascontiguousarray(v, dtype=float)
         _MESH_CACHE[name] = (v, _triangulate(v).astype(np.int64))
@@ -221,8 +237,8 @@ SIZES = {
     "box": [(1.0, 0.8, 0.6), (0.02, 0.01, 0.03), (100.0, 50.0, 70.0), (1.0, 0.5, 0.25), (1.0, 1.0, 1.0)],
     "disk": [0.5, 0.01, 50.0, 1.0],
     "ellipse": [(0.5, 0.3), (0.02, 0.01), (50.0, 20.0), (1.0, 0.25)],
-    "mesh": [("icosa", 1.0), ("tetra", 0.02), ("cube", 60.0), ("icosphere", 1.0), ("octa", 1.0), ("skew", 1.0), ("offtetra", 1.0), ("interior0", 1.0)],
-    "hull": [("skew", 1.0), ("tetra", 0.02), ("cube", 60.0), ("icosphere", 1.0), ("octa", 1.0), ("icosa", 1.0), ("offtetra", 1.0), ("interior0", 1.0)],
+    "mesh": [("icosa", 1.0), ("tetra", 0.02), ("cube", 60.0), ("icosphere", 1.0), ("octa", 1.0), ("skew", 1.0), ("offtetra", 1.0), ("interior0", 1.0), ("skewraw", 1.0), ("corner", 1.0)],
+    "hull": [("skew", 1.0), ("tetra", 0.02), ("cube", 60.0), ("icosphere", 1.0), ("octa", 1.0), ("icosa", 1.0), ("offtetra", 1.0), ("interior0", 1.0), ("skewraw", 1.0), ("corner", 1.0)],
 }
 
 
